@@ -380,6 +380,61 @@ theorem line_guard (f : File) (hwf : wfFile f = true) (hlf : linesInFuncOK f = t
     · exact h1 l hlb
   exact line_guard_partial f ranges m h lb rb p stmts hd l hw env henv hch hnc hin
 
+/-- **C03, header clause in general (line granularity, well-formed files): every forced insert
+    reaches its branch.** For every `force` event the control-statement pass emits for the file —
+    by `frcS` these are exactly: a changed if / for / range header (body), a changed `if` header
+    with a non-empty plain `else` block, a changed switch / type-switch header (every non-empty
+    case body), a changed case / comm clause header — the first boundary of the branch block it
+    names is a tracking position. -/
+theorem forced_branch_guard (f : File) (hwf : wfFile f = true) (hbf : boundariesInFuncOK f = true)
+    (ranges : List (Nat × Nat)) (m : Marks) (h : marks f .line ranges = .ok m)
+    (env : Env) (henv : mkEnv f .line ranges = .ok env)
+    (l : Nat) (hev : Ev.force l ∈ fileEvents (fun l => env.changed.getD l false) f) :
+    ∃ b ∈ fileBlks f, l = b.lo + 1 ∧ b.header ≠ [] ∧ b.firstBoundary ∈ m.multi := by
+  obtain ⟨hcm, hfs⟩ := mkEnv_file f .line ranges env henv
+  simp only [wfFile, Bool.and_eq_true, List.all_eq_true] at hwf
+  obtain ⟨⟨hshape, hblks⟩, _⟩ := hwf
+  obtain ⟨d, hd, hdev⟩ := List.mem_flatMap.mp hev
+  obtain ⟨b, hb, hlb, hh⟩ := decl_force _ d (hshape d hd) l hdev
+  have hbf' : b ∈ fileBlks f := List.mem_flatMap.mpr ⟨d, hd, hb⟩
+  have hbok := hblks b hbf'
+  have hlt : b.lo < b.hi := by
+    have := hbok.2
+    simp only [forcedOK, Bool.or_eq_true, List.isEmpty_iff, decide_eq_true_eq] at this
+    rcases this with h1 | h1
+    · exact absurd h1 hh
+    · exact h1
+  obtain ⟨f1, f2, f3, _⟩ := firstBoundary_facts f b hbok.1 hlt
+  have hsz := blk_hi_le f b hbok.1 hlt
+  have hfbc : env.isComment b.firstBoundary = .ok false := by
+    have := isComment_of_codes env f hcm b.firstBoundary (by omega) (by omega)
+    rwa [f3] at this
+  have hcsz : env.comments.size = f.lineCodes.size + 1 := by rw [hcm]; simp [commentArray]; omega
+  obtain ⟨r, hr⟩ := skipComments_exists env (b.firstBoundary - (b.lo + 1)) (b.lo + 1) (env.comments.size + 1)
+    (by omega) (by have : b.lo + 1 + (b.firstBoundary - (b.lo + 1)) = b.firstBoundary := by omega
+                   rw [this]; exact hfbc)
+  have hreq := force_target_eq env f hcm b hbok.1 hlt _ r hr
+  subst hreq
+  have hin : searchScopes env.funcs b.firstBoundary ≠ 0 := by
+    simp only [boundariesInFuncOK, hfs, List.all_eq_true, Bool.or_eq_true, Bool.not_eq_true', decide_eq_false_iff_not,
+      List.isEmpty_iff, bne_iff_ne, ne_eq] at hbf
+    rcases hbf b hbf' with (h1 | h1) | h1
+    · exact absurd hlt h1
+    · exact absurd h1 hh
+    · exact h1
+  refine ⟨b, hbf', hlb, hh, ?_⟩
+  unfold marks at h
+  rw [henv] at h
+  simp only at h
+  split at h
+  · cases h
+  · next st hst =>
+    cases h
+    rw [mem_sortNat]
+    have hg : env.gran = .line := mkEnv_gran f .line ranges env henv
+    rw [hlb] at hev
+    exact events_marked_line env hg _ {} st (Inv.init env) hst (b.lo + 1) b.firstBoundary (Or.inr hev) hr hin
+
 /-- **C03, header clause, line granularity, on well-formed files: a changed `if` header guards the
     branch.** For every abstract file that meets the layout hypothesis, every changed-line set on
     which the tracker terminates normally, every declared function with a multi-line body and every
